@@ -30,7 +30,7 @@ fn main() {
     }));
     ctx.run_slice(Slice::new("iterators-many-segments[255..4097 segments]", 8 * 3, |i, loc| ohmc::props::c08v::check_many_segments([255usize, 256, 257, 1023, 1024, 1025, 2049, 4097][(i / 3) as usize], (i % 3) as usize, loc)));
     let meta = Meta {
-        rule: "all segmented arrays with <=3 segments (thorough: 4) of size <=2 over a codomain <=3, of finite functions and of label arrays (thorough, one-argument operations and iterators: <=5 segments of size <=3 over a codomain <=2, <=4 segments of size <=2 over a codomain of 3); all pairs of them (coproduct, tensor, flatmap, flatmap_sources where composable); every re-indexing map of length <=3 into n-1, n, n+1 segments; every value map; raw (sizes, declared codomain, value length) triples for the checked constructors; iterator histories: every call sequence over {next, len, size_hint} of length n+2".into(),
+        rule: "all segmented arrays with <=3 segments (thorough: 4) of size <=2 over a codomain <=3, of finite functions and of label arrays (thorough, one-argument operations and iterators: <=5 segments of size <=3 over a codomain <=2, <=4 segments of size <=2 over a codomain of 3); all pairs of them (coproduct, tensor, flatmap, flatmap_sources where composable); every re-indexing map of length <=4 into n-1, n, n+1 segments (n <= 4; quick: one-argument operations also on all 4-segment arrays over codomains <= 2); every value map; raw (sizes, declared codomain, value length) triples for the checked constructors; iterator histories: every call sequence over {next, len, size_hint} of length n+2".into(),
         bounds: "<=3-4 segments, segment size <=2, value codomain <=3 (thorough one-argument families: <=5 segments of size <=3); raw sizes of length <=3 with entries <=3".into(),
         assumptions: vec!["list-of-lists semantics decoded from the raw public fields, with the size invariant sources.target = sum+1 = |values|+1 re-checked on every result".into()],
         explanation: "explicit enumeration of the IndexedCoproduct / Operations API and exploration of the iterator state machines against a cursor model".into(),
